@@ -24,6 +24,7 @@ static Shared* g_sh = nullptr; static int g_w = 0, g_W = 1;
 static double g_deadline = 1e18; static bool g_capped = false;
 inline double now() { timespec ts; clock_gettime(CLOCK_MONOTONIC, &ts); return ts.tv_sec + ts.tv_nsec * 1e-9; }
 static double g_t0 = 0;
+static unsigned g_worker_alarm = 900;   // a worker that runs longer than this is stuck inside a library call: SIGALRM ends it and the parent reports the crash
 
 inline void init(int W) { g_W = W < 1 ? 1 : W; g_sh = static_cast<Shared*>(mmap(nullptr, sizeof(Shared) * (g_W + 1), PROT_READ | PROT_WRITE, MAP_SHARED | MAP_ANONYMOUS, -1, 0)); memset(g_sh, 0, sizeof(Shared) * (g_W + 1)); g_t0 = now(); }
 inline Shared& me() { return g_sh[g_w]; }
@@ -41,9 +42,9 @@ inline bool out_of_time() { if (now() - g_t0 > g_deadline) { g_capped = true; re
 template <typename F> inline int parallel(F fn) {
 	if (g_W == 1) { g_w = 0; fn(0, 1); return 0; }
 	pid_t pids[256]; fflush(nullptr);
-	for (int w = 0; w < g_W; ++w) { pid_t p = fork(); if (p == 0) { prctl(PR_SET_PDEATHSIG, SIGKILL); g_w = w; fn(w, g_W); if (g_capped) snprintf(me().inflight, sizeof me().inflight, "CAPPED"); fflush(nullptr); _exit(0); } pids[w] = p; }
+	for (int w = 0; w < g_W; ++w) { pid_t p = fork(); if (p == 0) { prctl(PR_SET_PDEATHSIG, SIGKILL); alarm(g_worker_alarm); g_w = w; fn(w, g_W); if (g_capped) snprintf(me().inflight, sizeof me().inflight, "CAPPED"); fflush(nullptr); _exit(0); } pids[w] = p; }
 	int crashed = 0;
-	for (int w = 0; w < g_W; ++w) { int st = 0; while (waitpid(pids[w], &st, 0) < 0 && errno == EINTR) {} if (!WIFEXITED(st) || WEXITSTATUS(st)) { ++crashed; Shared& s = g_sh[w]; ++s.bad; if (s.nfirst < 8) snprintf(s.first[s.nfirst++], sizeof s.first[0], "crash\t%s\tworker %d terminated abnormally (status 0x%x)", s.inflight, w, st); } else if (!strcmp(g_sh[w].inflight, "CAPPED")) g_capped = true; }
+	for (int w = 0; w < g_W; ++w) { int st = 0; while (waitpid(pids[w], &st, 0) < 0 && errno == EINTR) {} if (!WIFEXITED(st) || WEXITSTATUS(st)) { ++crashed; Shared& s = g_sh[w]; ++s.bad; if (s.nfirst < 8) snprintf(s.first[s.nfirst++], sizeof s.first[0], "crash\t%s\tworker %d %s (status 0x%x)", s.inflight, w, (WIFSIGNALED(st) && WTERMSIG(st) == SIGALRM) ? "did not finish: a library call does not return" : "terminated abnormally", st); } else if (!strcmp(g_sh[w].inflight, "CAPPED")) g_capped = true; }
 	return crashed;
 }
 
